@@ -54,7 +54,7 @@ static const char* GK[4] = {"default", "orthonormal", "nonorthonormal", "depende
 
 struct Case {
     long idx = 0; int cls = 0; int n = 0; int nev = 1; bool two_arg = true; long nvec_init = 0, nvec_max = 0; int rule = 0; int maxit = 100; double tol = 1e-8;
-    bool sparse = false; int gkind = 0; Mat A; Mat G;
+    bool sparse = false; int gkind = 0; Mat A; Mat G; long mx = -1, in = -1, co = -1;   // sizes after the constructor
 };
 
 static std::string bits(const Mat& M) { std::string s; for (Index j = 0; j < M.cols(); j++) for (Index i = 0; i < M.rows(); i++) { s += ' '; s += str(dbits(M(i, j))); } return s; }
@@ -163,7 +163,7 @@ static void oracle(const Case& c, const Snap& s, Out& out, uint64_t seed, const 
     // mechanism tags used by known-finding matching (computed, not assumed)
     LD gdev = 0; if (c.gkind != 0) { for (Index i = 0; i < c.G.cols(); i++) for (Index j = 0; j < c.G.cols(); j++) { LD d = 0; for (int k = 0; k < n; k++) d += (LD) c.G(k, i) * (LD) c.G(k, j); gdev = std::max(gdev, std::fabs(d - (i == j ? 1.0L : 0.0L))); } }
     std::ostringstream ex; ex << ",\"guess_orthonormal\":" << (gdev <= 1e-8L ? 1 : 0) << ",\"zero_denominator_seen\":" << (zero_denom ? 1 : 0) << ",\"degenerate_correction_seen\":" << (in_span ? 1 : 0) << ",\"final_space_lt_nev\":" << ((long) s.th.size() < nev ? 1 : 0) << ",\"flags_lt_nev\":" << ((long) s.flags.size() < nev ? 1 : 0)
-                              << ",\"info\":" << s.info << ",\"ret\":" << s.ret << ",\"raised\":\"" << jesc(s.threw ? s.what : std::string("")) << "\"";
+                              << ",\"initial_space_gt_max\":" << ((c.gkind == 0 ? c.in : (long) c.G.cols()) > c.mx ? 1 : 0) << ",\"info\":" << s.info << ",\"ret\":" << s.ret << ",\"raised\":\"" << jesc(s.threw ? s.what : std::string("")) << "\"";
     std::string rj = replay_json(c, seed, tier, ex.str());
     std::string tag = std::string(CLS[c.cls]) + "/" + GK[c.gkind] + "/" + RN[c.rule] + " n=" + str(n) + " nev=" + str(nev);
     out.count("oracle_runs");
@@ -202,6 +202,7 @@ static void one_case(Op& op, Case& c, Out& out, uint64_t seed, const std::string
         if (c.two_arg) sp.reset(new Spectra::DavidsonSymEigsSolver<Op>(op, c.nev)); else sp.reset(new Spectra::DavidsonSymEigsSolver<Op>(op, c.nev, c.nvec_init, c.nvec_max));
         mx = AX::maxsz(*sp); in = AX::initsz(*sp); co = AX::corrsz(*sp);
     } catch (const std::invalid_argument&) { ctor_threw = true; }
+    c.mx = mx; c.in = in; c.co = co;
     if (corr) out.corr("sizes " + str(n) + " " + str(c.nev) + " " + str(c.nvec_init) + " " + str(c.nvec_max), ctor_threw ? "throw" : "ok " + str(mx) + " " + str(in) + " " + str(co));
     if (ctor_threw) { out.count("ctor_throw"); return; }
     if (in + co > n || mx > n || in < 1 || co < 1) { std::ostringstream ex; ex << ",\"max\":" << mx << ",\"init\":" << in << ",\"corr\":" << co; if (in < 1 || co < 1 || in + co > n) out.fail("sizes-guard", "constructor leaves sizes init=" + str(in) + " corr=" + str(co) + " max=" + str(mx) + " for n=" + str(n), replay_json(c, seed, tier, ex.str())); }
@@ -232,7 +233,7 @@ static void one_case(Op& op, Case& c, Out& out, uint64_t seed, const std::string
             // is the block of DPR corrections, once projected against the space, numerically rank deficient relative to its
             // scale (a correction inside the space, a correction at rounding level, mutually dependent corrections)?
             Index cc = std::min<Index>(co, p.th.size()); Mat T(n, cc); bool fin_t = true;
-            for (Index kk = 0; kk < cc; kk++) { T.col(kk) = (p.R.col(kk).array() / (p.th[kk] - diag.array())).matrix(); if (!T.col(kk).allFinite()) fin_t = false; }
+            for (Index kk = 0; kk < cc; kk++) { Eigen::ArrayXd den = p.th[kk] - diag.array(); T.col(kk) = (den == 0.0).select(0.0, p.R.col(kk).array() / den).matrix(); if (!T.col(kk).allFinite()) fin_t = false; }   // the DPR correction as the library forms it (0 where theta == a_ii)
             if (fin_t && cc > 0) { double tmax = T.colwise().norm().maxCoeff(); Mat P = T - Q * (Q.transpose() * T); P -= Q * (Q.transpose() * P);
                 if (tmax == 0) in_span = true; else { Eigen::JacobiSVD<Mat> svd(P); double smin = svd.singularValues()(svd.singularValues().size() - 1); if (cc > n - p.B.cols() || smin <= 1e-6 * tmax) in_span = true; } }
         }
@@ -297,10 +298,10 @@ static void do_case(Case& c, Out& out, uint64_t seed, const std::string& tier, b
 // fixed regression inputs (always run first)
 static std::vector<Case> corpus() {
     std::vector<Case> v;
-    { Case c; c.idx = -1; c.cls = 3; c.n = 8; c.nev = 2; c.rule = 3; c.tol = 1e-8; c.A = Mat::Zero(8, 8);   // F11: decoupled coordinate with the largest diagonal entry
+    { Case c; c.idx = -1; c.cls = 3; c.n = 8; c.nev = 2; c.rule = 3; c.tol = 1e-8; c.A = Mat::Zero(8, 8);   // F11 (repaired): decoupled coordinate with the largest diagonal entry; used to return NaN
       for (int i = 0; i < 8; i++) for (int j = 0; j < 8; j++) c.A(i, j) = (i == j) ? i + 1.0 : 0.1 / (1.0 + std::abs(i - j)); for (int i = 0; i < 8; i++) { if (i != 3) { c.A(i, 3) = 0; c.A(3, i) = 0; } } c.A(3, 3) = 20.0;
       c.two_arg = true; c.nvec_init = 4; c.nvec_max = 20; c.G = Mat(8, 0); v.push_back(c); }
-    { Case c; c.idx = -2; c.cls = 4; c.n = 10; c.nev = 6; c.rule = 3; c.tol = 1e-8; c.A = Mat::Zero(10, 10); for (int i = 0; i < 10; i++) c.A(i, i) = i + 1.0;   // 3*nev > n: clamped initial space smaller than nev
+    { Case c; c.idx = -2; c.cls = 4; c.n = 10; c.nev = 6; c.rule = 3; c.tol = 1e-8; c.A = Mat::Zero(10, 10); for (int i = 0; i < 10; i++) c.A(i, i) = i + 1.0;   // F18 (repaired): 3*nev > n; the clamped initial space used to be smaller than nev
       c.two_arg = true; c.nvec_init = 12; c.nvec_max = 60; c.G = Mat(10, 0); v.push_back(c); }
     { Case c; c.idx = -3; c.cls = 0; c.n = 12; c.nev = 2; c.rule = 7; c.tol = 1e-8; c.A = Mat::Zero(12, 12);    // F16: non-orthonormal guess
       for (int i = 0; i < 12; i++) for (int j = 0; j < 12; j++) c.A(i, j) = (i == j) ? i + 1.0 : 0.01; c.two_arg = true; c.nvec_init = 4; c.nvec_max = 20; c.gkind = 2; c.G = Mat(12, 0); v.push_back(c); }
